@@ -11,7 +11,7 @@
 From Coq Require Import List NArith.
 From Pika Require Import Base.Conc Base.Agent Gen.GenEnums Model.Sched Model.WeakAgent Proofs.SchedProofs
   Proofs.SchedWakeProofs Proofs.SchedRecycleProofs Proofs.SchedDeltaProofs Proofs.SchedAbortProofs
-  Proofs.SchedAcceptProofs Proofs.WeakAgentProofs.
+  Proofs.SchedAcceptProofs Proofs.WeakAgentProofs Proofs.SchedInterruptProofs.
 From Pika Require Model.Mutex Model.CondVar Model.Semaphore Model.Latch Model.Event Model.Once Model.Join
   Proofs.AgentUseProofs.
 Import ListNotations.
@@ -310,3 +310,57 @@ Proof.
   - repeat (eapply ar_cons; [vm_compute; auto|]). apply ar_nil.
   - vm_compute. split; reflexivity.
 Qed.
+
+(* ================================================================== wake-up issued INTO the window (round h12)
+   The window: the task has registered as a waiter (reg u = Some p) and released the primitive's
+   internal lock, but its worker has not yet published `suspended`: the word is still (active, p).
+   A wake-up issued there — pika::thread::interrupt() = set_thread_state(pending, abort,
+   retry_on_active = false), or the facility's notify = agent.resume() with retry_on_active = true —
+   must not be dropped.  Parts:
+   1.  the issue (SIssue u: the waker's critical section) with the word still (active, p) creates
+       the obligation needs_wake u p, leaves the word alone, and the waker — now at SLoad u, inside
+       set_thread_state(u) — carries it (inflight);
+   1'. a waker that reads the word while it is still (active, p) leaves the retry helper for exactly
+       (u, (active, p)) (the retry_on_active = true branch; the `false` branch of interrupt_thread
+       re-reads instead: the waker stays at SLoad u, which is the other disjunct of inflight — see the
+       header of Proofs/SchedInterruptProofs.v for what that argument covers and what it does not);
+   2.  in every reachable configuration an outstanding obligation (word (active, p) — the window — or
+       (suspended, p+1)) is in flight: an agent inside set_thread_state(u) before its CAS, or a staged /
+       pending / active helper for (u, (active, p));
+   3.  stuck /\ a worker exists: no obligation is outstanding, and no task incarnation's events have
+       the window shape  Reg .. Res .. Susp ..  (resume issued BEFORE the store that published
+       `suspended`) without a Wake / Yield / Term behind the Res. *)
+Theorem C02_interrupt_wakeup_not_lost : forall sched ext,
+  let c := sched_run sched ext in
+  (forall a o u p, sub_of (snd c a) = SIssue u -> reg (tasks (fst c) u) = Some p -> tw_of (fst c) u = wA p ->
+     let c' := sched_run (sched ++ [(a, o)]) ext in
+     needs_wake (fst c') u p /\ tw_of (fst c') u = wA p /\ sub_of (snd c' a) = SLoad u /\
+     inflight (fst c') (snd c') u p) /\
+  (forall a o u p, sub_of (snd c a) = SLoad u -> u < ntasks (fst c) -> tw_of (fst c) u = wA p ->
+     let c' := sched_run (sched ++ [(a, o)]) ext in
+     helper_for (fst c') u (wA p) /\ tw_of (fst c') u = wA p /\ sub_of (snd c' a) = SNone) /\
+  (forall u p, u < ntasks (fst c) -> needs_wake (fst c) u p -> inflight (fst c) (snd c) u p) /\
+  (forall w, ext w = None -> stuck c ->
+     (forall u p, u < ntasks (fst c) -> wake (tasks (fst c) u) = Some p ->
+        tw_of (fst c) u <> wS (p + 1) /\ tw_of (fst c) u <> wA p) /\
+     (forall i p1 p2 p3 p4,
+        wa_proj i (sched_trace sched ext) = p1 ++ KReg :: p2 ++ KRes :: p3 ++ KSusp :: p4 ->
+        ~ no_end (p2 ++ p3 ++ p4))).
+Proof. exact interrupt_wakeup_not_lost. Qed.
+Print Assumptions C02_interrupt_wakeup_not_lost.
+
+(* non-vacuity: on nv_sched the premises of parts 1 and 1' are met in turn — the OS thread is at
+   SIssue T while T is registered and (active, 1); after its step the obligation exists and it is
+   at SLoad T; after the next one the helper for (T, (active, 1)) is staged, T still active; T then
+   suspends: its events are exactly Reg, Res, Susp (the window shape) — and the run goes on with
+   the Wake *)
+Example C02_example_interrupt_window :
+  let c := sched_run (firstn 6 nv_sched) nv_ext in
+  sub_of (snd c 0) = SIssue 0 /\ reg (tasks (fst c) 0) = Some 1%N /\ tw_of (fst c) 0 = wA 1 /\
+  (let c1 := sched_run (firstn 6 nv_sched ++ [(0, oP)]) nv_ext in
+   sub_of (snd c1 0) = SLoad 0 /\ wake (tasks (fst c1) 0) = Some 1%N /\ tw_of (fst c1) 0 = wA 1) /\
+  (let c2 := sched_run ((firstn 6 nv_sched ++ [(0, oP)]) ++ [(0, oP)]) nv_ext in
+   staged (fst c2) = [HelperBody 0 (wA 1)] /\ tw_of (fst c2) 0 = wA 1) /\
+  wa_proj 0 (sched_trace (firstn 11 nv_sched) nv_ext) = [] ++ KReg :: [] ++ KRes :: [] ++ KSusp :: [] /\
+  wa_proj 0 (sched_trace nv_sched nv_ext) = [KReg; KRes; KSusp; KWake; KTerm].
+Proof. vm_compute. repeat split. Qed.
